@@ -40,7 +40,7 @@ from ufl.corealg.multifunction import MultiFunction  # noqa: E402
 
 from vf.canon import canon, canon_value  # noqa: E402
 
-KINDS = ["op", "sub_sum", "sub_sin", "sub_grad", "terminal", "geo", "math"]
+KINDS = ["op", "sub_sum", "sub_sin", "sub_grad", "terminal", "geo", "sub_jac", "math"]
 
 
 # ----------------------------------------------------------------------------------------------
@@ -150,6 +150,17 @@ def register(kind, env):
             name = "late_geo"
 
         cls = LateGeo
+    elif kind == "sub_jac":
+        from ufl.classes import Jacobian
+
+        @ufl_type()
+        class LateJacobian(Jacobian):
+            """A downstream Jacobian (e.g. of a moving mesh): handled by every algorithm like the Jacobian itself."""
+
+            __slots__ = ()
+            name = "late_J"
+
+        cls = LateJacobian
     elif kind == "math":
 
         @ufl_type()
@@ -197,6 +208,8 @@ def node(target, env, s):
         return cls()
     if target == "geo":
         return cls(env.mesh)
+    if target == "sub_jac":
+        return cls(env.mesh)[0, 0]
     if target == "math":
         return cls(f)
     raise ValueError(target)
